@@ -84,7 +84,11 @@ def _arg_seq(rng, big=False):
     mode = rng.choice(["abs", "rel", "both", "abs", "rel"])
     if not spec["notes"] and not spec["tsigs"] and not spec["keys"] and rng.random() < 0.3:
         mode = "empty"
-    return {"spec": spec, "mode": mode}
+    out = {"spec": spec, "mode": mode}
+    if mode != "empty" and rng.random() < 0.3:
+        out["prep"] = rng.choice(["read", "set_channel", "quantise", "pad"])
+        out["prep_arg"] = rng.randrange(1 << 10)
+    return out
 
 
 def g_add_abs(rng, seq):
@@ -148,7 +152,8 @@ def g_none(rng, seq):
 
 def g_overwrite_abs(rng, seq):
     spec = music.gen_music(rng, max_notes=5, horizon=200)
-    return {"spec": spec}
+    # the method sorts what it is given (binary insort by time): hand it the ticks in a scrambled order half of the time
+    return {"spec": spec, "perm": rng.randrange(1, 1 << 20) if rng.random() < 0.5 else 0}
 
 
 def g_overwrite_rel(rng, seq):
@@ -184,7 +189,7 @@ def g_split(rng, seq):
 def g_scale(rng, seq):
     r = rng.random()
     if r < 0.06:
-        f = 0.5
+        f = 0.5 if rng.random() < 0.8 else 0.25
     else:
         f = rng.choice([1, 2, 2, 3, 4])
     # meta sequence: default, the receiver itself (it is only read: a natural "use its own signatures" call), or another one
@@ -294,7 +299,31 @@ def g_direct(rng, seq):
 # ------------------------------------------------------------------ appliers
 
 def _build(a):
-    return music.build_sequence(a["spec"], a["mode"])
+    """A sequence-valued argument. `prep` makes it a *used* object (stale leftovers, regenerated views) instead of a
+    pristine one; with `clean` the caller gets a clone that carries only the fresh views - the value is the same, so an
+    operation must treat both alike (the clean twin is given the clean one)."""
+    q = music.build_sequence(a["spec"], a["mode"])
+    prep = a.get("prep")
+    if prep:
+        try:
+            if prep == "read":
+                q.abs
+                q.rel
+            elif prep == "set_channel":
+                q.rel
+                q.abs
+                q.set_channel(a.get("prep_arg", 0) % 4)
+            elif prep == "quantise":
+                q.rel
+                q.quantise([6])
+            elif prep == "pad":
+                q.abs
+                q.pad(a.get("prep_arg", 0) % 300)
+        except Exception:
+            q = music.build_sequence(a["spec"], a["mode"])
+    if a.get("_clean"):
+        q = observe.clone_seq(q)
+    return q
 
 
 def _types(names):
@@ -341,7 +370,20 @@ def a_normalise(s, a):
 
 
 def a_overwrite_abs(s, a):
-    s.overwrite_absolute_messages(music.render_abs(a["spec"]))
+    msgs = music.render_abs(a["spec"])
+    if a.get("perm"):
+        # scramble the order of the ticks, keep the order inside one tick (DESIGN L6)
+        groups = {}
+        for m in msgs:
+            groups.setdefault(m.time, []).append(m)
+        ticks = sorted(groups)
+        x = a["perm"]
+        for i in range(len(ticks) - 1, 0, -1):
+            x = (x * 1103515245 + 12345) & 0x7FFFFFFF
+            j = x % (i + 1)
+            ticks[i], ticks[j] = ticks[j], ticks[i]
+        msgs = [m for t in ticks for m in groups[t]]
+    s.overwrite_absolute_messages(msgs)
 
 
 def a_overwrite_rel(s, a):
@@ -506,6 +548,30 @@ def a_tokenise(s, a):
         return ["refused", str(e)[:60]]
 
 
+def a_to_file(s, a):
+    """Sequence.save / sequences_save to a scratch file: a read of the sequence as far as its views are concerned."""
+    import os
+    import tempfile
+    d = "/dev/shm" if os.path.isdir("/dev/shm") and os.access("/dev/shm", os.W_OK) else tempfile.gettempdir()
+    fd, path = tempfile.mkstemp(prefix="scoda_c04_", suffix=".mid", dir=d)
+    os.close(fd)
+    try:
+        if a.get("static"):
+            Sequence.sequences_save([s], path)
+        else:
+            s.save(path)
+        return os.path.getsize(path) > 0
+    finally:
+        try:
+            os.remove(path)
+        except OSError:
+            pass
+
+
+def g_to_file(rng, seq):
+    return {"static": rng.random() < 0.5}
+
+
 def a_read_abs(s, a):
     s.abs
 
@@ -654,6 +720,7 @@ OPS = {
     "is_channel_consistent": (VAL, g_none, a_is_cc, 1, False),
     "is_empty": (VAL, g_none, a_is_empty, 1, False),
     "to_midi_track": (VAL, g_none, a_to_midi_track, 2, False),
+    "save": (VAL, g_to_file, a_to_file, 1, False),
     "sequences_split_bars": (VAL, g_split_bars, a_split_bars, 2, False),
     "read_abs": (READ, g_none, a_read_abs, 4, False),
     "read_rel": (READ, g_none, a_read_rel, 4, False),
